@@ -2,6 +2,6 @@
 HOOK_COMMITS = ['d35aa08', 'bbc29c7', '7a9731c']
 NOTES = ("Technique: machine-checked proof in Lean 4 about hand-written models of the contract code; the models are tied to "
          "/repo's working tree on every run by a correspondence check (contracts recompiled from the tree, executed on neo-go's VM, "
-         "compared line by line with the models' executable definitions) and by facts regenerated from the sources. "
+         "compared line by line with the models' executable definitions) and by facts regenerated from the sources (constants, tolerant to pure renames; the witness-flow IR of every manifest method with a sound abstract interpreter decided by the kernel; arithmetic ASTs of the multisig thresholds with a proved decision procedure; the storage write footprint of every manifest method with kernel-evaluated frame theorems; the index maps of the Notary bootstrap). "
          "See DESIGN.md. Genuine defects found: known_findings.json.")
 PENDING = {}
